@@ -161,7 +161,7 @@ func init() {
 		},
 		Phases: []Phase{
 			{Name: "hostile atoms in every field position", Exhaustive: true, N: Fixed(n*n*n*3, n*n*n*3), Run: c05Positions},
-			{Name: "random tables", N: Fixed(5000, 500000), Run: func(c *Ctx, i int, r *gen.R) {
+			{Name: "random tables", N: Fixed(5000, 3000000), Run: func(c *Ctx, i int, r *gen.R) {
 				spec := c05Table(r)
 				c05Check(c, &spec, true)
 			}},
